@@ -113,7 +113,10 @@ class Engine:
             sc["block_dur"] = C.block_dur_for(bsz, sr)
             sc["params"] = C.gen_split_params(T, bsz / sr)
             sc["abandon"] = T.draw(12)
-            sc["via"] = T.choice(["reader", "source"])
+            sc["via"] = T.choice(["reader", "source", "overlap"])
+            sc["hop"] = T.between(1, bsz - 1) if bsz > 1 else None
+            if sc["hop"] is None and sc["via"] == "overlap":
+                sc["via"] = "reader"
             if layer == 3:
                 sc["sched"] = gen_sched(T, tier, n)
         sc["pattern"] = C.gen_pattern(T, n)
@@ -148,10 +151,31 @@ class Engine:
                 "signature": sig or clause}
 
     # ---- latency clause shared by all layers (indices in frames/windows)
-    def _latency(self, i, start, end, d, n_total, max_length, bound):
+    def _latency(self, i, start, end, d, n_total, max_length, bound,
+                 valid=None, mcs=None):
         """d = index of the read in flight at hand-over (n_total = the read
-        that returned end of stream)."""
+        that returned end of stream).  With the validity of the frames known
+        (`valid`, and no initial phase) the deciding frame is determined
+        exactly: the frame completing max_length, else the first frame of
+        excess silence = last valid frame + max_continuous_silence + 1, else
+        end of stream."""
         length = end - start + 1
+        if valid is not None and mcs is not None:
+            if length >= max_length:
+                want = end
+            else:
+                last = None
+                for k in range(min(end, len(valid) - 1), start - 1, -1):
+                    if valid[k]:
+                        last = k
+                        break
+                want = n_total if last is None else min(last + mcs + 1,
+                                                        n_total)
+            if d == want:
+                return None
+            return ("token %d [%d..%d] handed over while read #%d was in "
+                    "flight; the deciding read is #%d (stream has %d frames)"
+                    % (i, start, end, d, want, n_total))
         if d == n_total:
             return None
         if length >= max_length and d == end:
@@ -212,7 +236,9 @@ class Engine:
             # clause 1: latency
             for i, (tok, a) in enumerate(zip(toks, at)):
                 msg = self._latency(i, tok[1], tok[2], a - 1, cut,
-                                    p["max_length"], bound)
+                                    p["max_length"], bound,
+                                    valid if p["init_min"] <= 1 else None,
+                                    p["mcs"])
                 if msg:
                     return V("C08.1", "generator mode, cut %d: %s" % (
                         cut, msg), "C08.1:latency")
@@ -290,9 +316,20 @@ class Engine:
         mx, ms = params["mx"], params["ms"]
         w = bsz / sr
 
+        overlap = sc["via"] == "overlap" and layer_hop(sc) is not None
+        hop = layer_hop(sc) if overlap else None
+        hop_dur = None
+        if overlap:
+            hop_dur = (hop + 0.5) / sr
+            if int(hop_dur * sr) != hop or not hop_dur < sc["block_dur"]:
+                overlap, hop, hop_dur = False, None, None
+
         def start(cutbytes):
             src = sources.SimAudioSource(data[:cutbytes], sr, sw, ch)
-            if sc["via"] == "reader":
+            if overlap:
+                g = split(AudioReader(src, block_dur=sc["block_dur"],
+                                      hop_dur=hop_dur), **kw)
+            elif sc["via"] in ("reader", "overlap"):
                 g = split(AudioReader(src, block_dur=sc["block_dur"]), **kw)
             else:
                 g = split(src, analysis_window=sc["block_dur"], **kw)
@@ -300,6 +337,20 @@ class Engine:
 
         def windex(t):
             return int(round(t / w))
+
+        # reference framing + per-frame validity (real validator)
+        from auditok.util import AudioEnergyValidator
+        from .readers import Model
+        fm = Model(data, bps, bsz, hop, None)
+        frames = []
+        while True:
+            f_ = fm.read()
+            if f_ is None:
+                break
+            frames.append(f_)
+        val = AudioEnergyValidator(C.ETH, sw, ch)
+        valid = [bool(val.is_valid(f_)) for f_ in frames]
+        nwin = len(frames)
 
         src, g = start(len(data))
         regs, at = [], []
@@ -320,10 +371,14 @@ class Engine:
             nw = -(-(len(r.data) // bps) // bsz)
             e = s + nw - 1
             d = nreads - 1
-            msg = self._latency(i, s, e, d, nwin, mx, ms)
+            msg = self._latency(i, s, e, d, nwin, mx, ms, valid, ms)
             if msg:
-                return V("C08.6", "split() region %d: %s" % (i, msg),
-                         "C08.6:split_latency")
+                return V("C08.6", "split() over %s, region %d: %s" % (
+                    "an overlapping reader (hop %d of %d samples)" % (
+                        hop, bsz) if overlap else sc["via"], i, msg),
+                    "C08.6:split_latency")
+        if overlap:
+            out["probes"]["split_over_overlapping_reader"] = 1
         # abandonment: after k regions nothing more is pulled
         k = sc["abandon"]
         if regs and k >= 1:
@@ -340,6 +395,10 @@ class Engine:
                              k, src2.reads, at[k - 1][0]),
                          "C08.2:read_after_abandon")
             out["faults"]["abandon"] = 1
+        if overlap:
+            early = sum(1 for a in at if not a[1])
+            out["nontrivial"] = len(regs) >= 2 and early >= 1
+            return None
         # prefix consistency at a few cut points (whole windows + one ragged)
         keys = [(r.start, bytes(r.data)) for r in regs]
         nfull = len(sc["pattern"])
@@ -437,13 +496,20 @@ class Engine:
             nw = -(-(len(r.data) // bps) // bsz)
             e_ = s + nw - 1
             d = at.get(id_, 10 ** 9) - 1
-            msg = self._latency(i, s, e_, d, nwin, params["mx"], params["ms"])
+            valid3 = [bool(p_) for p_ in sc["pattern"]] + (
+                [True] if sc["extra"] else [])
+            msg = self._latency(i, s, e_, d, nwin, params["mx"], params["ms"],
+                                valid3, params["ms"])
             if msg:
                 return V("C08.6", "pipeline: %s" % msg, "C08.6:pipe_latency")
         early = sum(1 for v in at.values() if v - 1 < nwin)
         out["nontrivial"] = len(got) >= 2 and early >= 1
         res.clear()
         return None
+
+
+def layer_hop(sc):
+    return sc.get("hop")
 
 
 def _brief(toks):
